@@ -34,7 +34,7 @@ use crate::util::T0;
 use crate::world::pin_this_thread;
 
 /// yields per settling round (the longest hop chain is socket -> reader task -> channel -> loop -> socket)
-const YIELDS: usize = 48;
+const YIELDS: usize = 12;
 
 #[derive(Default, Debug, Clone, PartialEq, Eq)]
 pub struct StepOut {
@@ -188,11 +188,14 @@ where
     let rx = nb(StdUdp::bind("127.0.0.1:0").map_err(|e| e.to_string())?);
     let rx_addr = rx.local_addr().unwrap();
     let client = nb(StdUdp::bind("127.0.0.1:0").map_err(|e| e.to_string())?);
-    // the sender binds its listener by port number: ports come from a process-wide counter below the
-    // ephemeral range (never handed out twice in a row), probed free just before use
+    // the sender binds its listener by port number: ports come from this process's slice of 30000..32400
+    // (see world::port_slice), never handed out twice in a row, probed free just before use
     let local_port = loop {
         let k = LISTENER_PORT.fetch_add(1, std::sync::atomic::Ordering::Relaxed);
-        let port = 30_000 + ((std::process::id() as u64 % 13) * 200 + k) % 2_700;
+        let port = match crate::world::port_slice() {
+            Some(n) => 30_000 + n as u64 * 60 + k % 60,
+            None => 30_000 + ((std::process::id() as u64 % 13) * 200 + k) % 2_400,
+        };
         if StdUdp::bind(("::", port as u16)).is_ok() {
             break port as u16;
         }
